@@ -24,6 +24,7 @@ def check (target : String) (h : Array Ev) (w : List Nat) : Bool :=
   | "kms" => validate kmsSpec h w
   | "session" => validate sessionSpec h w
   | "pickup" => validate pickupSpec h w
+  | "wsave" => validate walletSpec h w
   | _ => validate kvSpec h w
 
 def judge (input impl : String) : String × String × String :=
